@@ -161,6 +161,8 @@ func (c *Config) collOptions(e *Env) moss.CollectionOptions {
 		DeferredSort:        c.DeferredSort,
 		CachePersisted:      c.CachePersisted,
 		MaxPreMergerBatches: c.MaxPreMergerBatches,
+		MaxDirtyOps:         c.MaxDirtyOps,
+		MaxDirtyKeyValBytes: c.MaxDirtyBytes,
 	}
 	if c.MergeOp {
 		if e.mergeOp == nil {
